@@ -111,5 +111,23 @@ def main(tier: str) -> int:
         agree += (mine == data == theirs)
     print(f"(c) codec: {agree}/{len(traces)} streams re-encode byte-identically through harness/wire.py and through google.protobuf")
     ok &= agree == len(traces)
+    # (d) the inductive step on real edges of the serializer state graph: three corruptions of recorded edges must be refused
+    from .. import writergraph as wg  # noqa: PLC0415
+
+    c = dict(U.THOROUGH_SLICES["flow2"], CheckFits=False, AllowReject=True)
+    _idle, pools, _r = wg.model_idle_states(c)
+    _real, trans = wg.walk(c, pools, body_max=0)
+    t = copy.deepcopy(trans[:40])
+    a = next(x for x in t if any(r["r"] == "name" for r in x["rows"]))
+    next(r for r in a["rows"] if r["r"] == "name")["v"] = "zzz"                  # another string in an entry row
+    b = next(x for x in t if x is not a and "N" in x["to"] and x["to"]["N"]["ord"])
+    b["to"]["N"]["la"] = 7                                                        # successor state: another last-assigned id
+    d = next(x for x in t if x not in (a, b) and x["rows"])
+    d["rows"] = d["rows"][:-1]                                                    # the statement row dropped
+    j, _st = wg.judge_transitions(c, t)
+    got = [j[x["id"]]["ind"] for x in (a, b, d)]
+    clean = sum(1 for x in t if j[x["id"]]["ind"] == "ok")
+    print(f"(d) inductive step on real edges: {clean}/{len(t)} accepted, the three corrupted ones judged {got}")
+    ok &= clean == len(t) - 3 and got[0].startswith("Faithful") and got[1].startswith("Mirror") and got[2] != "ok"
     print("SELFTEST", "ok" if ok else "FAILED")
     return 0 if ok else 2
